@@ -71,7 +71,7 @@ fn build_ops(ops: &[OpSpec]) -> Vec<WOp> {
         .map(|o| match o {
             OpSpec::Node { id, gc, from } => WOp::Node { id: universe_id(*id as usize % UNIVERSE), last_gc: u64_class(gc.0, gc.1), from_version: u64_class(from.0, from.1) },
             OpSpec::Kv { key, val_len, version, status } => WOp::Kv(WKv {
-                key: if *key == 255 { String::new() } else { PKEYS[*key as usize % 4].to_string() },
+                key: hostile_key(*key),
                 value: "h".repeat(*val_len as usize % 300),
                 version: u64_class(version.0, version.1),
                 status: *status % 3,
@@ -79,6 +79,15 @@ fn build_ops(ops: &[OpSpec]) -> Vec<WOp> {
             OpSpec::SetMax(v) => WOp::SetMax(u64_class(v.0, v.1)),
         })
         .collect()
+}
+
+/// Keys: the four ASCII pair keys, keys with multi-byte characters at various offsets, the empty key.
+pub fn hostile_key(key: u8) -> String {
+    match key {
+        255 => String::new(),
+        k if k % 10 < 4 => PKEYS[(k % 10) as usize].to_string(),
+        k => ["ké", "kéé", "é", "k😀x", "kaé", "😀"][(k % 10 - 4) as usize].to_string(),
+    }
 }
 
 pub fn datagram_bytes(spec: &DgSpec) -> Option<Vec<u8>> {
@@ -242,6 +251,8 @@ pub fn exec_hostile(case: &HostileCase, tally: &mut Tally) -> Result<(), Failure
                 ns.delete(PKEYS[k as usize % 4]);
             }
         }
+        // The victim's application listens to a few prefixes (dispatch runs inside process_message).
+        let _handles: Vec<chitchat::ListenerHandle> = ["k", "ke", "ka", "kaa", "é", ""].iter().take(1 + (case.own_keys as usize % 6)).map(|p| victim.subscribe_event(*p, |_| {})).collect();
         let mut seen = std::collections::HashSet::new();
         for (i, c) in &case.copies {
             let idx = 1 + (*i as usize % 8);
@@ -302,7 +313,7 @@ fn op_spec() -> impl Strategy<Value = OpSpec> {
     prop_oneof![
         3 => (0u8..10, u64_spec(), u64_spec()).prop_map(|(id, gc, from)| OpSpec::Node { id, gc, from }),
         1 => (0u8..48, u64_spec(), u64_spec()).prop_map(|(id, gc, from)| OpSpec::Node { id, gc, from }),
-        6 => (prop_oneof![8 => 0u8..4, 1 => Just(255u8)], 0u16..300, u64_spec(), 0u8..3).prop_map(|(key, val_len, version, status)| OpSpec::Kv { key, val_len, version, status }),
+        6 => (prop_oneof![8 => 0u8..4, 3 => 4u8..10, 1 => Just(255u8)], 0u16..300, u64_spec(), 0u8..3).prop_map(|(key, val_len, version, status)| OpSpec::Kv { key, val_len, version, status }),
         3 => u64_spec().prop_map(OpSpec::SetMax),
     ]
 }
